@@ -146,7 +146,8 @@ static int unsupported;                    /* the case uses something outside "s
 static long NOW;
 
 /* ground truth, derived from the final spec that was handed to the generator */
-static int gt_in_validity(const node *n) { return n->spec.not_before <= NOW && NOW <= n->spec.not_after; }
+#define LINGER 86400L   /* PS_X509_TIME_LINGER: the documented one-day tolerance of the date check (crypto/keyformat/x509.h) is granted to the library */
+static int gt_in_validity(const node *n) { return n->spec.not_before <= NOW + LINGER && NOW <= n->spec.not_after + LINGER; }
 static int gt_is_ca(const node *n) { return n->spec.version == 2 && n->spec.bc && n->spec.bc_ca; }
 static int gt_alg_enabled(int a) { return a == CG_RSA_SHA256 || a == CG_RSA_SHA384 || a == CG_RSA_SHA512 || a == CG_RSA_PSS_SHA256 || a == CG_RSA_PSS_SHA384 ||
                                           a == CG_ECDSA_SHA256 || a == CG_ECDSA_SHA384 || a == CG_ECDSA_SHA512 || a == CG_ED25519_SIG; }
@@ -155,7 +156,13 @@ static int gt_sig_genuine(const node *n)      /* signature bytes are a real sign
     const cg_spec *s = &n->spec; int alg = s->sigalg ? s->sigalg : cg_sig_default(s->signer);
     if (s->sigmode != CG_SM_GOOD) return 0;
     if (s->outer_sigalg && s->outer_sigalg != alg) return 0;
-    if (s->sign_alg && s->sign_alg != alg) return 0;
+    if (s->sign_alg && s->sign_alg != alg) {
+        /* declared OID names another public-key family but the same digest and a deterministic-padding scheme: the bytes ARE a signature of this TBS by
+         * the issuer's key with an enabled digest - only the OID is odd.  Granted to the library (recorded as lenient), it is no forgery. */
+        const EVP_MD *a = cg_sig_md(alg), *b = cg_sig_md(s->sign_alg);
+        int pss = alg == CG_RSA_PSS_SHA256 || alg == CG_RSA_PSS_SHA384 || s->sign_alg == CG_RSA_PSS_SHA256 || s->sign_alg == CG_RSA_PSS_SHA384;
+        if (!a || a != b || pss || cg_sig_family(alg) == cg_sig_family(s->sign_alg)) return 0;
+    }
     return 1;
 }
 static int gt_issued_by(const node *c, const node *x, int below)   /* may x act as issuer of c with `below` intermediates under x ? */
@@ -349,6 +356,17 @@ static void chain_text(const cdesc *d, char *o, size_t n)
     for (int j = 0; j < 2; j++) if (d->op[j] != OP_NONE) k += snprintf(o + k, n - k, " op=%s@%d", OPS[d->op[j]].name, d->pos[j]);
     if (ncrl) k += snprintf(o + k, n - k, " crls=%d", ncrl);
 }
+static void keylabel(const cdesc *d, char *o, size_t n)
+{
+    const char *a = OPS[d->op[0]].cls == CL_BAD ? OPS[d->op[0]].name : NULL, *b = OPS[d->op[1]].cls == CL_BAD ? OPS[d->op[1]].name : NULL;
+    if (a && b && strcmp(a, b) > 0) { const char *t = a; a = b; b = t; }
+    if (a && b && strcmp(a, b)) snprintf(o, n, "%s+%s", a, b);
+    else if (a || b) snprintf(o, n, "%s", a ? a : b);
+    else if (d->anc != A_RIGHT) snprintf(o, n, "%s", d->anc == A_NONE ? "no-anchor" : d->anc == A_WRONG || d->anc == A_MANY_WRONG ? "wrong-anchor" : ANC[d->anc]);
+    else if (d->apl >= 0 && d->L - 2 > d->apl) snprintf(o, n, "anchor-pathlen-exceeded");
+    else if (d->ord) snprintf(o, n, "permuted");
+    else snprintf(o, n, "unlabelled");
+}
 static void labels(const cdesc *d, char *o, size_t n)
 {
     const char *a = OPS[d->op[0]].name, *b = OPS[d->op[1]].name; size_t k = 0; o[0] = 0;
@@ -435,6 +453,7 @@ static void run_case(const cdesc *d)
     int record_only = OPS[d->op[0]].cls == CL_RECORD || OPS[d->op[1]].cls == CL_RECORD;
     int canonical_anchor = d->anc == A_RIGHT || d->anc == A_INT || d->anc == A_INT_NOTPRESENTED || d->anc == A_MANY_RIGHT_LAST || d->anc == A_MANY_RIGHT_FIRST;
     int canonical = ref && benign && !record_only && d->ord == 0 && canonical_anchor && !unsupported;
+    if (d->root_presented && (d->anc == A_INT || d->anc == A_INT_NOTPRESENTED)) canonical = 0;     /* certificates presented beyond the trust anchor: not a canonical presentation */
     if ((d->op[0] == OP_NO_AKI_SKI || d->op[1] == OP_NO_AKI_SKI) && (d->anc == A_MANY_RIGHT_LAST || d->anc == A_MANY_RIGHT_FIRST)) canonical = 0;   /* issuer choice by name only is ambiguous there */
 
     /* --- OpenSSL cross-checks of the GENERATOR --- */
@@ -459,8 +478,8 @@ static void run_case(const cdesc *d)
          * turns it into unknown_ca itself, hsDecode.c); recorded, not asserted */
         if (success) vf_stat("lenient:null-anchor-list-selfsigned-chain-accepted", 1);
     } else if (success && !ref) {
-        char key[260]; snprintf(key, sizeof key, "c03:accepts:%s", lab);
-        vf_violation(key, ds, "validation reports success (all indicators positive) although no rule-conforming path to a trust anchor exists | %s | %s | api=%s", ct, detail,
+        char key[260], kl[160]; keylabel(d, kl, sizeof kl); snprintf(key, sizeof key, "c03:accepts:%s", kl);
+        vf_violation(key, ds, "validation reports success (all indicators positive) although no rule-conforming path to a trust anchor exists | labels=%s | %s | %s | api=%s", lab, ct, detail,
                      d->api == 0 ? "matrixValidateCerts" : d->api == 1 ? "matrixValidateCertsExt" : "matrixValidateCertsExt+REVALIDATE_DATES");
         vf_statf(1, "accepted_bad:%s", primary(d));
     } else if (!success && canonical) {
@@ -472,6 +491,7 @@ static void run_case(const cdesc *d)
     if (ref && !success && !canonical) { vf_statf(1, "strict:%s", primary(d)); }          /* valid by the reference but non-canonical: library stricter, recorded */
     if (ref && success && !canonical) vf_statf(1, "noncanonical-accepted:%s", primary(d));
     if (record_only) vf_statf(1, "record:%s:%s", primary(d), success ? "accepted" : "rejected");
+    if (success && ref) for (int k = 0; k < 2; k++) { if (d->op[k] == OP_SIG_ALG_WRONG) vf_stat("lenient:signature-oid-family-ignored-same-digest", 1); if (d->op[k] == OP_LINGER) vf_stat("lenient:expired-within-one-day-linger", 1); }
     if (g_sample) vf_sample("%s -> ref=%s lib=%s", ct, ref ? "path" : "no-path", success ? "success" : "rejected");
 
     char kp[MAXL + 1]; for (int i = 0; i < d->L; i++) kp[i] = kt_ch(d->kt[i]); kp[d->L] = 0;
